@@ -30,7 +30,7 @@ func FuzzHpackDecode(f *testing.F) {
 		}
 		f.Add(append([]byte(nil), b.Bytes()...))
 	}
-	f.Add([]byte{0x20, 0x3f, 0xe1, 0x1f, 0x82, 0x40, 0x01, 'a', 0x01, 'b', 0xbe})       // size updates, literal with indexing, dynamic reference
+	f.Add([]byte{0x20, 0x3f, 0xe1, 0x1f, 0x82, 0x40, 0x01, 'a', 0x01, 'b', 0xbe})         // size updates, literal with indexing, dynamic reference
 	f.Add([]byte{0x00, 0x85, 0xf2, 0xb2, 0x4a, 0x84, 0xff, 0x84, 0x49, 0x50, 0x9f, 0xff}) // huffman literals
 	f.Fuzz(func(t *testing.T, data []byte) {
 		if len(data) > 1<<16 {
